@@ -293,6 +293,8 @@ def gen_case(rng, tier):
                     depth += 1 if st['d'] in ('if', 'ifdef', 'ifndef') else (-1 if st['d'] == 'endif' else 0)
             if depth > 0:
                 pos = 0
+            if rng.random() < 0.35:
+                pos = len(stmts)          # the very last line of the file: nothing follows that could notice it later
             stmts.insert(pos, bad)
         else:
             tail = [{'k': 'cond', 'd': 'if', 'c': {'lhs': ('num', 1), 'op': '==', 'rhs': ('num', rng.choice([0, 1]))}},
